@@ -79,6 +79,14 @@ Definition expand_groups (c : cat) : cat :=
   let '(c1, l) := expand_pols c (sort_pols (pols c)) in set_pols c1 l.
 
 (* the commands of the correspondence: those of [cmd] and the expansion *)
-Inductive xcmd := Base (x : cmd) | XExpand.
+(* XJoin: CreateDataNodeCommand on a store configured with expand-shards: a node that is really new (the list grew) is followed
+   by an expansion inside the same command *)
+Inductive xcmd := Base (x : cmd) | XExpand | XJoin (h t : Z).
 Definition applyx (clip cleardef : bool) (c : cat) (x : xcmd) : cat * bool :=
-  match x with Base y => apply clip cleardef c y | XExpand => ok (expand_groups c) end.
+  match x with
+  | Base y => apply clip cleardef c y
+  | XExpand => ok (expand_groups c)
+  | XJoin h t =>
+      let '(c1, r) := create_node c h t in
+      if Nat.ltb (length (nodes c)) (length (nodes c1)) then (expand_groups c1, r) else (c1, r)
+  end.
